@@ -193,7 +193,9 @@ func (c *Ctx) PanicSites(fn *ssa.Function) []*PanicSite {
 				}
 				add(in, "slice", x.X, x.High, x.Low, ex(x.X)+"["+ex(x.Low)+":"+ex(x.High)+"]")
 			case *ssa.TypeAssert:
-				if !x.CommaOk {
+				// an assertion of an interface value to its own type is the nil check the compiler emits for a method
+				// value (`m.db.Get` passed as a function): it fails exactly when calling the method would
+				if !x.CommaOk && !types.Identical(x.X.Type(), x.AssertedType) {
 					add(in, "assert", x.X, nil, nil, ex(x.X)+".("+typeShort(c.P, x.AssertedType)+")")
 				}
 			case *ssa.BinOp:
